@@ -20,7 +20,7 @@ ASSUMPTIONS = ["mpmath.quad of the integrand pulled back with plain sympy subs/d
                "a SymPy integrate() that stalls (watchdog) is inconclusive"]
 N = {"quick": 96, "thorough": 960}
 MIN_REACH = {"quick": {"dependent_limits": 4, "region_reparametrised": 12, "stokes": 24, "green": 16, "gauss": 16, "quadrature": 50, "reparametrisation": 10, "free_symbols": 80,
-                       "two_component_field_off_plane": 3, "planar_field_depending_on_z": 5},
+                       "two_component_field_off_plane": 3, "planar_field_depending_on_z": 5, "law_wrapper_compared": 150, "gauss_curvilinear": 24},
              "thorough": {"stokes": 150, "green": 100, "gauss": 100}}
 SHARD_TIMEOUT = {"quick": 900, "thorough": 3300}
 mpmath.mp.dps = 25
@@ -92,6 +92,27 @@ class Run:
             self.rec.violation(f"raises:{name}:{type(e).__name__}", f"{name} raised {type(e).__name__}: {str(e)[:120]}", case)
         return None
 
+    def via_law(self, core_name, core_fn, law_fn, coefvals, case):
+        """the same integral through the core routine and through the catalogue's law wrapper (laws/fields): must agree"""
+        core = core_fn()
+        try:
+            with harness.Watchdog(90):
+                law = law_fn()
+        except TimeoutError:
+            self.rec.inconc("watchdog: SymPy integrate stalled in the law wrapper of " + core_name)
+            return core
+        except Exception as e:  # pylint: disable=broad-except
+            self.rec.violation(f"law-wrapper-raises:{core_name}", f"laws/fields wrapper of {core_name} raised {type(e).__name__}: {str(e)[:120]}", case)
+            return core
+        self.rec.hit("law_wrapper_compared")
+        try:
+            import sympy
+            if sympy.simplify(sympy.sympify(core) - sympy.sympify(law)) != 0 and not close(numeric(core, coefvals), numeric(law, coefvals), "1e-9"):
+                self.rec.violation(f"law-wrapper-differs:{core_name}", f"laws/fields wrapper of {core_name} returns {str(law)[:100]} but the core routine returns {str(core)[:100]}", case)
+        except ValueError:
+            pass
+        return core
+
     def check_free(self, name, res, forbidden, case):
         import sympy
         self.rec.hit("free_symbols")
@@ -131,6 +152,19 @@ def stokes_setup(run: Run, cs, idx):
     case = {"theorem": "stokes", "shape": shape, "field": [str(c) for c in F], "centre": [str(cx), str(cy)], "R": str(R), "ab": [a, b], "z0": z0,
             "coefficients": {str(k): str(v) for k, v in coefvals.items()}, "two_component_field": two}
     forbidden = list(bs) + [t, s]
+    from symplyphysics.laws.fields import circulation_is_integral_along_curve as LC, circulation_is_integral_of_curl_over_surface as LS
+
+    def curve_circ(g, lim):
+        p_, lo_, hi_ = lim
+        return run.via_law("circulation_along_curve", lambda: A.circulation_along_curve(field, g, lim),
+                           lambda: LC.circulation_law(field, [sympy.sympify(c).subs(p_, LC.parameter) for c in g], lo_, hi_), coefvals, case)
+
+    def surf_circ(sg, lim1, lim2):
+        (p1, lo1, hi1), (p2, lo2, hi2) = lim1, lim2
+        ren = {p1: LS.parameter1, p2: LS.parameter2}
+        rn = lambda e_: sympy.sympify(e_).subs(ren, simultaneous=True)
+        return run.via_law("circulation_along_surface_boundary", lambda: A.circulation_along_surface_boundary(field, sg, lim1, lim2),
+                           lambda: LS.circulation_law(field, [rn(c) for c in sg], (rn(lo1), rn(hi1)), (rn(lo2), rn(hi2))), coefvals, case)
     if shape in ("triangle", "disc-cartesian"):
         # surfaces whose inner integration limits depend on the outer parameter
         u, v = sympy.symbols("u v", real=True)
@@ -138,40 +172,40 @@ def stokes_setup(run: Run, cs, idx):
         if shape == "triangle":
             w_ = a  # triangle (cx,cy) -> (cx+w,cy) -> (cx+w,cy+w)
             segs = [([cx + w_ * t, cy, z0], 0, 1), ([cx + w_, cy + w_ * t, z0], 0, 1), ([cx + w_ - w_ * t, cy + w_ - w_ * t, z0], 0, 1)]
-            parts = [run.call("circulation_along_curve", lambda g=g: A.circulation_along_curve(field, g, (t, lo, hi)), case) for g, lo, hi in segs]
+            parts = [run.call("circulation_along_curve", lambda g=g: curve_circ(g, (t, lo, hi)), case) for g, lo, hi in segs]
             if any(p_ is None for p_ in parts):
                 return
             circ = sum(parts)
             # u from its lower bound (depending on v) to the right edge; v over the height
             surf = run.call("circulation_along_surface_boundary[dependent limits]",
-                            lambda: A.circulation_along_surface_boundary(field, [u, v, z0], (u, cx + (v - cy), cx + w_), (v, cy, cy + w_)), case)
+                            lambda: surf_circ([u, v, z0], (u, cx + (v - cy), cx + w_), (v, cy, cy + w_)), case)
             want = sum(quad_curve(F, bs, g, t, lo, hi, coefvals) for g, lo, hi in segs)
         else:
             gamma = [cx + R * cos(t), cy + R * sin(t), z0]
-            circ = run.call("circulation_along_curve", lambda: A.circulation_along_curve(field, gamma, (t, 0, 2 * pi)), case)
+            circ = run.call("circulation_along_curve", lambda: curve_circ(gamma, (t, 0, 2 * pi)), case)
             half = sympy.sqrt(R**2 - (v - cy) ** 2)
             surf = run.call("circulation_along_surface_boundary[dependent limits]",
-                            lambda: A.circulation_along_surface_boundary(field, [u, v, z0], (u, cx - half, cx + half), (v, cy - R, cy + R)), case)
+                            lambda: surf_circ([u, v, z0], (u, cx - half, cx + half), (v, cy - R, cy + R)), case)
             want = quad_curve(F, bs, gamma, t, 0, 2 * mpmath.pi, coefvals)
         rec.hit("dependent_limits")
     elif shape == "rectangle":
         x0, x1, y0, y1 = cx, cx + a, cy, cy + b
         segs = [([x0 + (x1 - x0) * t, y0, z0], 0, 1), ([x1, y0 + (y1 - y0) * t, z0], 0, 1), ([x1 - (x1 - x0) * t, y1, z0], 0, 1), ([x0, y1 - (y1 - y0) * t, z0], 0, 1)]
-        parts = [run.call("circulation_along_curve", lambda g=g: A.circulation_along_curve(field, g, (t, lo, hi)), case) for g, lo, hi in segs]
+        parts = [run.call("circulation_along_curve", lambda g=g: curve_circ(g, (t, lo, hi)), case) for g, lo, hi in segs]
         if any(p is None for p in parts):
             return
         circ = sum(parts)
-        surf = run.call("circulation_along_surface_boundary", lambda: A.circulation_along_surface_boundary(field, [t, s, z0], (t, x0, x1), (s, y0, y1)), case)
+        surf = run.call("circulation_along_surface_boundary", lambda: surf_circ([t, s, z0], (t, x0, x1), (s, y0, y1)), case)
         want = sum(quad_curve(F, bs, g, t, lo, hi, coefvals) for g, lo, hi in segs)
     elif shape == "rectangle-xz":
         # rectangle in a plane y = y0 (normal along Y), counter-clockwise seen from +Y: z first, then x
         x0, x1, zz0, zz1, y0 = cx, cx + a, z0, z0 + b, cy
         segs = [([x0, y0, zz0 + (zz1 - zz0) * t], 0, 1), ([x0 + (x1 - x0) * t, y0, zz1], 0, 1), ([x1, y0, zz1 - (zz1 - zz0) * t], 0, 1), ([x1 - (x1 - x0) * t, y0, zz0], 0, 1)]
-        parts = [run.call("circulation_along_curve", lambda g=g: A.circulation_along_curve(field, g, (t, lo, hi)), case) for g, lo, hi in segs]
+        parts = [run.call("circulation_along_curve", lambda g=g: curve_circ(g, (t, lo, hi)), case) for g, lo, hi in segs]
         if any(p is None for p in parts):
             return
         circ = sum(parts)
-        surf = run.call("circulation_along_surface_boundary", lambda: A.circulation_along_surface_boundary(field, [s, y0, t], (t, zz0, zz1), (s, x0, x1)), case)
+        surf = run.call("circulation_along_surface_boundary", lambda: surf_circ([s, y0, t], (t, zz0, zz1), (s, x0, x1)), case)
         want = sum(quad_curve(F, bs, g, t, lo, hi, coefvals) for g, lo, hi in segs)
     else:
         if shape == "ellipse":
@@ -187,8 +221,8 @@ def stokes_setup(run: Run, cs, idx):
             gamma = [cx + R * cos(t), cy + R * sin(t), z0]
             sigma = [cx + s * cos(t), cy + s * sin(t), z0 + h * (1 - s / R)]
             case["cone_height"] = h
-        circ = run.call("circulation_along_curve", lambda: A.circulation_along_curve(field, gamma, (t, 0, 2 * pi)), case)
-        surf = run.call("circulation_along_surface_boundary", lambda: A.circulation_along_surface_boundary(field, sigma, (s, 0, R), (t, 0, 2 * pi)), case)
+        circ = run.call("circulation_along_curve", lambda: curve_circ(gamma, (t, 0, 2 * pi)), case)
+        surf = run.call("circulation_along_surface_boundary", lambda: surf_circ(sigma, (s, 0, R), (t, 0, 2 * pi)), case)
         want = quad_curve(F, bs, gamma, t, 0, 2 * mpmath.pi, coefvals)
         # reparametrisation / orientation (numeric set-ups only: cheap)
         if circ is not None and not symbolic and idx % 2 == 0:
@@ -258,7 +292,9 @@ def green_setup(run: Run, cs, idx):
     gamma = [cx + a * R * cos(t), cy + b * R * sin(t)]
     sigma = [cx + a * s * cos(t), cy + b * s * sin(t)]
     case = {"theorem": "green", "field": [str(c) for c in F], "centre": [cx, cy], "R": R, "ab": [a, b], "coefficients": {str(k): str(v) for k, v in coefvals.items()}}
-    fl = run.call("flux_across_curve", lambda: A.flux_across_curve(field, gamma, (t, 0, 2 * pi)), case)
+    from symplyphysics.laws.fields import flux_is_integral_across_curve as LF
+    fl = run.call("flux_across_curve", lambda: run.via_law("flux_across_curve", lambda: A.flux_across_curve(field, gamma, (t, 0, 2 * pi)),
+                  lambda: LF.flux_law(field, [c.subs(t, LF.parameter) for c in gamma], 0, 2 * pi), coefvals, case), case)
     fb = run.call("flux_across_surface_boundary", lambda: A.flux_across_surface_boundary(field, sigma, (s, 0, R), (t, 0, 2 * pi)), case)
     if fl is None or fb is None:
         return
@@ -327,9 +363,13 @@ def gauss_setup(run: Run, cs, idx):
     faces = [("+z", [t1, t2, z1], (t1, x0, x1), (t2, y0, y1), 1), ("-z", [t1, t2, z0], (t1, x0, x1), (t2, y0, y1), -1),
              ("+x", [x1, t1, t2], (t1, y0, y1), (t2, z0, z1), 1), ("-x", [x0, t1, t2], (t1, y0, y1), (t2, z0, z1), -1),
              ("+y", [t2, y1, t1], (t1, z0, z1), (t2, x0, x1), 1), ("-y", [t2, y0, t1], (t1, z0, z1), (t2, x0, x1), -1)]
+    from symplyphysics.laws.fields import flux_is_integral_across_surface as LFS
     total = 0
     for nm, surf, l1, l2, sign in faces:
-        v = run.call("flux_across_surface", lambda: A.flux_across_surface(field, surf, l1, l2), case)
+        def law_face(surf=surf, l1=l1, l2=l2):
+            ren = {l1[0]: LFS.parameter1, l2[0]: LFS.parameter2}
+            return LFS.flux_law(field, [sympy.sympify(c).subs(ren, simultaneous=True) for c in surf], (l1[1], l1[2]), (l2[1], l2[2]))
+        v = run.call("flux_across_surface", lambda: run.via_law("flux_across_surface", lambda: A.flux_across_surface(field, surf, l1, l2), law_face, coefvals, case), case)
         if v is None:
             return
         total = total + sign * v
@@ -359,6 +399,70 @@ def gauss_setup(run: Run, cs, idx):
         rec.violation("quadrature:divergence", f"flux_across_volume_boundary = {v1} but own quadrature = {want}", case)
 
 
+def gauss_curvilinear_setup(run: Run, idx):
+    """the volume integral of the divergence over a coordinate box of a cylindrical / spherical system (a wedge of a
+    cylinder or of a spherical shell). Cylindrical: the field is a Cartesian polynomial field written in local components;
+    reference = own quadrature of its Cartesian divergence (plain sympy.diff) times the Jacobian. Spherical: the field is
+    given by simple local components; reference = own quadrature of the outward flux through the six coordinate faces
+    (own area elements r^2 sin(polar), r, r sin(polar))."""
+    import sympy
+    from symplyphysics import Vector, CoordinateSystem
+    from symplyphysics.core.fields.vector_field import VectorField
+    from symplyphysics.core.fields import analysis as A
+    r, rec = run.r, run.rec
+    sysname = ("CYLINDRICAL", "SPHERICAL")[idx % 2]
+    cs = CoordinateSystem(getattr(CoordinateSystem.System, sysname))
+    b = cs.coord_system.base_scalars()
+    half = sympy.Rational(1, 2)
+    if sysname == "CYLINDRICAL":
+        x, y, z = sympy.symbols("x y z", real=True)
+        mons = [1, x, y, z, x * y, y * z, x * z, x**2, y**2, z**2]
+        Fc = [sum(r.choice([1, -2, 3, half]) * m for m in r.sample(mons, 3)) for _ in range(3)]
+        div_c = sum(sympy.diff(Fc[i], v) for i, v in enumerate((x, y, z)))
+        to_cart = {x: b[0] * sympy.cos(b[1]), y: b[0] * sympy.sin(b[1]), z: b[2]}
+        basis = [(sympy.cos(b[1]), sympy.sin(b[1]), 0), (-sympy.sin(b[1]), sympy.cos(b[1]), 0), (0, 0, 1)]
+        lims = [(sympy.Rational(r.randint(0, 2), 2), sympy.Rational(r.randint(3, 5), 2)), (r.choice([0, sympy.pi / 6]), r.choice([sympy.pi / 2, sympy.pi, 2 * sympy.pi])),
+                (r.choice([0, -1]), r.choice([1, 2]))]
+        Fs_cart = [c.subs(to_cart, simultaneous=True) for c in Fc]
+        Fs = [sympy.simplify(sum(Fs_cart[k] * basis[i][k] for k in range(3))) for i in range(3)]
+        integrand = sympy.lambdify(list(b), div_c.subs(to_cart, simultaneous=True) * b[0], "mpmath")
+        nlims = [[mpmath.mpf(sympy.N(a_, 20)), mpmath.mpf(sympy.N(b_, 20))] for a_, b_ in lims]
+        with mpmath.workdps(15):
+            want = mpmath.quad(integrand, *nlims)
+        desc = [str(c) for c in Fc]
+    else:
+        # this core orders spherical coordinates (r, azimuth = theta, polar = phi)
+        rr, th, ph = b
+        trig = [1, sympy.sin(ph), sympy.cos(ph), sympy.sin(th), sympy.cos(th) ** 2, sympy.sin(ph) ** 2]
+        Fs = [r.choice([1, -2, 3, half]) * rr ** r.choice([0, 1, 2]) * r.choice(trig) for _ in range(3)]
+        lims = [(sympy.Rational(r.randint(1, 2), 2), sympy.Rational(r.randint(3, 5), 2)), (r.choice([0, sympy.pi / 6]), r.choice([sympy.pi / 2, sympy.pi, 2 * sympy.pi])),
+                (r.choice([sympy.pi / 6, sympy.pi / 4]), r.choice([sympy.pi / 2, 2 * sympy.pi / 3]))]
+        (r0, r1), (t0, t1), (p0, p1) = [[mpmath.mpf(sympy.N(a_, 20)) for a_ in l_] for l_ in lims]
+        fr, ft, fp = [sympy.lambdify([rr, th, ph], c, "mpmath") for c in Fs]
+        with mpmath.workdps(15):
+            want = (mpmath.quad(lambda t_, p_: (fr(r1, t_, p_) * r1 ** 2 - fr(r0, t_, p_) * r0 ** 2) * mpmath.sin(p_), [t0, t1], [p0, p1])
+                    + mpmath.quad(lambda r_, p_: (ft(r_, t1, p_) - ft(r_, t0, p_)) * r_, [r0, r1], [p0, p1])
+                    + mpmath.quad(lambda r_, t_: (fp(r_, t_, p1) * mpmath.sin(p1) - fp(r_, t_, p0) * mpmath.sin(p0)) * r_, [r0, r1], [t0, t1]))
+        desc = [str(c) for c in Fs]
+    field = VectorField.from_vector(Vector(Fs, cs))
+    case = {"theorem": "gauss", "system": sysname, "field": desc, "box": [[str(a_) for a_ in l_] for l_ in lims]}
+    vol = run.call("flux_across_volume_boundary", lambda: A.flux_across_volume_boundary(field, *lims), case)
+    if vol is None:
+        return
+    rec.hit("gauss_curvilinear")
+    if not run.check_free("flux_across_volume_boundary", vol, list(b), case):
+        return
+    rec.case(case, nontrivial=abs(want) > 1e-9)
+    try:
+        got = numeric(vol, {})
+    except ValueError as e:
+        rec.inconc("result not numeric: " + str(e)[:60])
+        return
+    rec.hit("quadrature")
+    if not close(got, want, "1e-6"):
+        rec.violation(f"quadrature:divergence:{sysname}", f"flux_across_volume_boundary over the {sysname} box {case['box']} = {got} but own quadrature gives {want}", case)
+
+
 def work(spec, rec):
     from symplyphysics import CoordinateSystem
     r = harness.rng_for("C13", spec["seed"], spec["shard"])
@@ -371,6 +475,8 @@ def work(spec, rec):
         try:
             with harness.Watchdog(400):
                 {"stokes": stokes_setup, "green": green_setup, "gauss": gauss_setup}[kind](run, cs, idx)
+                if kind == "gauss":
+                    gauss_curvilinear_setup(run, idx // 16 + spec["shard"])
         except TimeoutError:
             rec.inconc("watchdog around the set-up")
 
